@@ -388,6 +388,10 @@ func normalizeSetField(
 	p := parsePathWithOpts(name, opts)
 	old, err := p.GetValue(cfg, opts)
 	if err != nil {
+		if err.Reason() == ErrExpectedObject {
+			// a parent of name has already been defined as a primitive value
+			return raiseDuplicateKey(cfg, name)
+		}
 		if err.Reason() != ErrMissing {
 			return err
 		}
@@ -398,14 +402,53 @@ func normalizeSetField(
 	case !isNil(old) && isNil(val):
 		return nil
 	case isNil(old):
-		return p.SetValue(cfg, opts, val)
+		err := p.SetValue(cfg, opts, val)
+		if err != nil && err.Reason() == ErrExpectedObject {
+			// a parent of name has already been defined as a primitive value
+			return raiseDuplicateKey(cfg, name)
+		}
+		return err
 	case isSub(old) && isSub(val):
 		cfgOld, _ := old.toConfig(opts)
 		cfgVal, _ := val.toConfig(opts)
+		// Both spellings of the namespace must not define the same setting,
+		// no matter which one has been found first.
+		if err := checkNoDuplicates(cfgOld, cfgVal); err != nil {
+			return err
+		}
 		return mergeConfig(opts, cfgOld, cfgVal)
 	default:
 		return raiseDuplicateKey(cfg, name)
 	}
+}
+
+// checkNoDuplicates reports a duplicate key if a and b, two partial
+// definitions of the same namespace within one input, both define a setting.
+func checkNoDuplicates(a, b *Config) Error {
+	check := func(name string, va, vb value) Error {
+		if isNil(va) || isNil(vb) {
+			return nil
+		}
+		if !isSub(va) || !isSub(vb) {
+			return raiseDuplicateKey(a, name)
+		}
+		return checkNoDuplicates(va.(cfgSub).c, vb.(cfgSub).c)
+	}
+
+	for k, vb := range b.fields.dict() {
+		if va, ok := a.fields.get(k); ok {
+			if err := check(k, va, vb); err != nil {
+				return err
+			}
+		}
+	}
+	arrA, arrB := a.fields.array(), b.fields.array()
+	for i := 0; i < len(arrA) && i < len(arrB); i++ {
+		if err := check(fmt.Sprintf("%d", i), arrA[i], arrB[i]); err != nil {
+			return err
+		}
+	}
+	return nil
 }
 
 func normalizeStructValue(opts *options, ctx context, from reflect.Value) (value, Error) {
